@@ -174,7 +174,7 @@ func TestListenerRouting(t *testing.T) {
 			}
 			lc.Close()
 			synctest.Wait()
-			for i := 0; i < 50 && l.VerifAcceptLen() > 0; i++ {
+			for i := 0; i < 5000 && l.VerifAcceptLen() > 0; i++ {
 				l.SetReadDeadline(time.Time{})
 				if s, err := l.AcceptKCP(); err == nil && s != nil {
 					s.Close()
